@@ -410,7 +410,7 @@ def run(check: core.Check) -> None:
         del em
     if not cases:
         raise core.MachineryError("no cases emitted by TLC")
-    limit = 60000 if quick else 500000
+    limit = 40000 if quick else 500000
     check.cov["model_cases"] = len(cases)
     cases, exhaustive = _sample(cases, limit, rnd)
     check.cov["exhaustive"] = exhaustive  # of the replayed bound (quick: Binder.quick.cfg, thorough: Binder.emit.cfg)
@@ -421,7 +421,7 @@ def run(check: core.Check) -> None:
         "<=MaxKw keywords over parameter names + z, optional **dict-literal / **dict[str,int]); non-trivial = >=2 parameters "
         "and a keyword or star argument"
     )
-    judge(check, cases, "tlc-exhaustive", n_visitor=3000 if quick else 40000, rnd=rnd)
+    judge(check, cases, "tlc-exhaustive", n_visitor=2000 if quick else 40000, rnd=rnd)
     # 3. beyond the exhaustive bound: TLC simulation up to 6 parameters, 4 positionals, 4 keywords
     num = 2500 if quick else 60000
     sim = core.require_ok(
